@@ -19,7 +19,8 @@
 using namespace cola;
 
 static const double S = 10000.0;
-static long long lat(double v) { return (std::isfinite(v) && fabs(v) < 2e5) ? llround(v * S) : 2000000000; }
+// positions on the 1e-4 lattice; 2000000000 = not finite (NaN/inf), 1999999999 = finite but beyond what a 32-bit lattice can hold (|v| >= 2e5)
+static long long lat(double v) { return !std::isfinite(v) ? 2000000000 : (fabs(v) < 2e5) ? llround(v * S) : 1999999999; }
 
 struct Con { int kind, dim; std::vector<int> a; };
 struct Case {
